@@ -5,6 +5,10 @@ func init() {
 		Level:       "held on every executed case: complete sweep of all operation sequences up to length 6 (thorough 7) over push(4 values incl. a comparator tie)/pop/clear/convert/delete under both comparators, FromSlice and Sort on all slices up to length 6 (8), plus seeded random long sequences with Merge/Meld; every Pop/Peek checked for extremality with the comparator itself and the held multiset compared after every step",
 		Technique:   "reference-model trace monitor (multiset model + comparator as order oracle) over systematic small-scope sweep + seeded random sequences",
 		Assumptions: []string{"the multiset model and the generators are trusted", "comparators are strict orders on the key field", "single goroutine; concurrency is C01/C02"}})
+	reg(&propCfg{ID: "C05", Pkg: "./props/c05", Variants: simple(false),
+		Level:       "held on every executed case: complete sweep of all sequences up to length 7 (thorough 9) over enqueue(3 values)/dequeue/clear/observe for both queue implementations plus seeded random sequences with fill/drain/clear/churn phases; every Dequeue result and Size/Peek/Search compared with a slice model, final drain and Dequeue-on-empty",
+		Technique:   "reference-model trace monitor (FIFO slice model) over systematic small-scope sweep + seeded random sequences",
+		Assumptions: []string{"the slice model and the generators are trusted", "the linked queue reports emptiness by returning the zero value (values enqueued in the sweep are non-zero)", "single goroutine; concurrency is C01/C02"}})
 	reg(&propCfg{ID: "C04", Pkg: "./props/c04", Variants: simple(false),
 		Technique:   "reference-model trace monitor (map model) over systematic small-scope sweep + seeded random sequences",
 		Assumptions: []string{"the map model and the generators are trusted", "single goroutine; concurrency is C01/C02"}})
